@@ -1266,7 +1266,8 @@ const ZKIR_NAMES: &[&str] = &[
 
 /// Grammar-aware mutations of a ZKIR JSON program. `huge` selects the parameter values that can
 /// make the *compiler* do work proportional to the parameter (kept apart, few, own shard).
-fn zkir_grammar_mutations(text: &str, huge: bool) -> Vec<String> {
+fn zkir_grammar_mutations(text: &str, part: u8) -> Vec<String> {
+    let huge = part == 2;
     let mut out: Vec<String> = vec![];
     let Ok(root) = serde_json::from_str::<Json>(text) else { return out };
     let Some(instrs) = root.get("instructions").and_then(|x| x.as_array()).cloned() else { return out };
@@ -1309,10 +1310,12 @@ fn zkir_grammar_mutations(text: &str, huge: bool) -> Vec<String> {
                 param_ops.push(json!({"from_bytes": {"Bytes": p}}));
             }
         }
-        for po in param_ops {
-            out.push(with(&|i| i["op"] = po.clone()));
+        if part != 1 {
+            for po in param_ops {
+                out.push(with(&|i| i["op"] = po.clone()));
+            }
         }
-        if huge {
+        if part != 1 {
             continue;
         }
         // unknown / ill-typed operations
@@ -1414,7 +1417,7 @@ fn zkir_grammar_mutations(text: &str, huge: bool) -> Vec<String> {
             }
         }
     }
-    if !huge {
+    if part == 1 {
         // appended instructions: every unary / binary operation applied to every defined name
         for a in names.iter().take(10) {
             let mut unary: Vec<Json> = vec![json!("neg"), json!("sha256"), json!("sha512"), json!("affine_coordinates"), json!("poseidon"), json!("publish")];
@@ -1558,9 +1561,9 @@ fn materialize(c: &Corpus, body: &Json, idx: u64) -> (Vec<u8>, String) {
                 None => (enc, "countbump-none".into()),
             }
         }
-        "gram" | "gramhuge" => {
+        "gram" | "gramp" | "gramhuge" => {
             let text = String::from_utf8_lossy(&enc).to_string();
-            let all = zkir_grammar_mutations(&text, body["m"] == "gramhuge");
+            let all = zkir_grammar_mutations(&text, if body["m"] == "gramhuge" { 2 } else if body["m"] == "gramp" { 0 } else { 1 });
             let step = body["step"].as_u64().unwrap_or(1).max(1);
             match all.get((idx * step) as usize) {
                 Some(x) => (x.as_bytes().to_vec(), format!("grammar#{}", idx * step)),
@@ -2255,7 +2258,7 @@ fn mutator_rank(m: &str) -> usize {
         "honest" | "appendzero" => 0,
         "byte" | "bdelta" => 1,
         "trunc" | "trunc_at" => 2,
-        "gram" | "gramhuge" => 3,
+        "gram" | "gramp" | "gramhuge" => 3,
         "cb" => 4,
         _ => 5,
     }
@@ -2627,15 +2630,18 @@ fn make_plan(c: &Corpus, thorough: bool) -> Plan {
         let text = String::from_utf8_lossy(&enc).to_string();
         p.push("main", 0, 1, body("zkir_json", "-", s, "honest"));
         p.push("main", 0, enc.len() as u64 + 1, body("zkir_json", "-", s, "trunc"));
-        let n_gram = zkir_grammar_mutations(&text, false).len() as u64;
+        let n_par = zkir_grammar_mutations(&text, 0).len() as u64;
+        p.push("main", 0, n_par, body("zkir_json", "-", s, "gramp"));
+        let n_gram = zkir_grammar_mutations(&text, 1).len() as u64;
         let mut b = body("zkir_json", "-", s, "gram");
         let step = if thorough { 1 } else { (n_gram / 450).max(1) };
         b["step"] = json!(step);
         p.push("main", 0, n_gram / step, b);
-        let n_huge = zkir_grammar_mutations(&text, true).len() as u64;
+        let n_huge = zkir_grammar_mutations(&text, 2).len() as u64;
         let mut b = body("zkir_json", "-", s, "gramhuge");
-        let step = if thorough { 1 } else { (n_huge / 6).max(1) };
+        let step = if thorough { (n_huge / 24).max(1) } else { (n_huge / 6).max(1) };
         b["step"] = json!(step);
+        b["fence"] = json!("short");
         p.push("huge", 0, n_huge / step, b);
         p.push("main", 0, (rand_per_class / c.zkir_json.len() as u64).max(1), body("zkir_json", "-", s, "rand"));
     }
@@ -2745,6 +2751,7 @@ fn parent_cfg(ctx: &Ctx, scratch: &Path, corpus: &Path, children: usize) -> tot:
         max_children: children,
         rlimit_as: tot::DEFAULT_RLIMIT_AS,
         fence_secs: ctx.tier.pick(60, 300),
+        short_fence_secs: ctx.tier.pick(30, 60),
         scratch: scratch.to_path_buf(),
         child_args: vec![
             "--seed".into(),
